@@ -220,13 +220,31 @@ CHECKS["C14"] = {
         H("c14.VH_regexp", {}, {}, covers=_c14), H("c14.VH_wireguard", {}, {}, covers=_c14), H("c14.VH_wireguard_zero", {}, {}, covers=_c14),
         H("c14.VH_postgres", {}, {}, covers=_c14 + ["startup message"], weight=2), H("c14.VH_ishttp", {}, {}, covers=_c14, weight=2),
         H("c14.VH_not", {}, {}, covers=_c14 + ["undecided"]), H("c14.VH_ip", {}, {}, covers=_c14),
-        H("c14.VH_clock", {}, {}, covers=_c14, validate=False), H("c14.VH_dns_rules", {}, {}, covers=_c14, validate=False, native_replay=False),
+        H("c14.VH_clock", {}, {}, covers=_c14, validate=False), H("c14.VH_dns_rules", {}, {}, covers=_c14),
     ],
     "level_text": "bounded model checking against reference predicates written from the wire definitions (not from the matcher code): for every complete first message within the bound the real Match must accept every well-formed message that satisfies the configured filters and reject every message that violates a mandatory field or a filter; regions the definitions leave open are don't-care",
     "level_note": "decided for ssh, xmpp, proxy_protocol, socks4 (commands/ports/CIDRs), socks5 (method lists), regexp (cross-checks the engine's NFA model against a direct byte predicate), wireguard (+zero filter), postgres (SSLRequest, v3 startup, version and length violations), isHttp, not, remote_ip/local_ip (concrete v4/v6/v4-mapped addresses at CIDR boundaries), clock (symbolic second of day, 4 window/zone configurations incl. swap and 24:00), dns rule combination (class/type/name symbolic over a finite set; the third-party wire parser is replaced). Not decided: openvpn, winbox, rdp field predicates (their parsers are covered for safety/round-trip by C04/C18 and for fragmentation by C06), http beyond the request-line heuristic, quic",
     "assumptions": ["dns.Msg.Unpack/Len replaced by a scripted result (one question, class/type/name from a finite set)", "clock: wrap time pinned through the replacer key l4.conn.wrap_time"],
     "outside": ["openvpn / winbox / rdp reference predicates", "net/http, quic-go, miekg/dns wire parsing", "time-zone database (only fixed offsets and UTC)"],
     "bounds": {"quick": "message lengths: ssh 8, xmpp 54, proxy_protocol 16, socks4 10, socks5 8, regexp 6, wireguard 150, postgres 14, isHttp 24", "thorough": "same"},
+}
+
+CHECKS["C07"] = {
+    "harnesses": [
+        H("c07.VH_parse", {"EXT": 10}, {"EXT": 12}, variant="free", covers=["accepted by crypto/tls", "rejected by crypto/tls", "server name present", "alpn present"], weight=6),
+        H("c07.VH_parse", {"EXT": 8, "PRE": 1}, {"EXT": 10, "PRE": 1}, variant="after-ticket", covers=["accepted by crypto/tls", "alpn present"], weight=6),
+        H("c07.VH_parse", {"EXT": 7, "PRE": 2}, {"EXT": 10, "PRE": 2}, variant="after-points", covers=["accepted by crypto/tls"], weight=4),
+        H("c07.VH_parse", {"EXT": 7, "PRE": 3}, {"EXT": 10, "PRE": 3}, variant="after-reneg", covers=["accepted by crypto/tls"], weight=4, tiers=("thorough",)),
+        H("c07.VH_parse", {"EXT": 7, "PRE": 4}, {"EXT": 10, "PRE": 4}, variant="after-sct", covers=["accepted by crypto/tls"], weight=4, tiers=("thorough",)),
+        H("c07.VH_parse", {"EXT": 0, "VERS": 1}, {"EXT": 7, "VERS": 1}, variant="versions", covers=["accepted by crypto/tls"], weight=1),
+        H("c07.VH_alpn", {"EXT": 10}, {"EXT": 12}, covers=["accepted by crypto/tls", "alpn matches"], weight=6),
+        H("c07.VH_record", {"L": 50}, {"L": 58}, covers=["header incomplete", "not a handshake record", "hello incomplete", "hello complete"], weight=3),
+    ],
+    "level_text": "bounded differential model checking: the repository's parseRawClientHello and the standard library's own clientHelloMsg.unmarshal + clientHelloInfo (the live crypto/tls of the Go that builds the repository, reached through an overlay shim, both executed from SSA) run on the same symbolic ClientHello; whenever crypto/tls accepts the hello, server name, ALPN list, supported versions, cipher suites, curves, point formats and signature schemes must be equal; the alpn sub-matcher must equal exact membership in the server's list; record type / incomplete-hello rules of MatchTLS.Match are asserted directly",
+    "level_note": "hello = free fixed part (session id <= 1 byte, 1-2 cipher suites, 1 compression method, version fixed to 0x0303 except in the 'versions' variant) + extension block that is a free byte string of <= 10 (quick) / 12 (thorough) bytes, optionally preceded by one concrete extension (session_ticket with a non-empty ticket, ec_point_formats, renegotiation_info, SCT); real ClientHellos (200-1800 bytes, key shares, many extensions) are far outside this bound",
+    "assumptions": ["crypto/tls reached through an add-only overlay shim (VerifUnmarshalClientHello) in the standard library's package directory; nothing on disk is modified"],
+    "outside": ["extension blocks longer than the bound, more than ~2 extensions", "placeholders l4.tls.server_name / l4.tls.version (set from the same parsed values)", "sni matcher (caddytls.MatchServerName, Caddy code)"],
+    "bounds": {"quick": "extension block <= 10 bytes free, or one concrete extension + <= 7-8 free bytes", "thorough": "<= 12 free bytes / concrete + 10"},
 }
 
 NOT_APPLICABLE = {
